@@ -116,3 +116,13 @@ func LiveBytesExcluding(roots ...interface{}) int { return 0 }
 // a lock held by the suspended operation are dropped. PreemptRan reports whether f ran and disarms.
 func PreemptAtLock(k int, f func()) {}
 func PreemptRan() bool              { return false }
+
+// Yield marks a point inside a long-running environment call (download, disk I/O) that counts as a
+// context-switch point for PreemptAtLock, like a lock acquisition.
+func Yield() {}
+
+// SpawnAsThread: the next goroutine the code under test starts runs at once as a second thread (until it
+// returns, waits for a lock or pauses at a Yield); the spawning operation continues meanwhile and the two
+// alternate whenever one of them has to wait. JoinThread lets it finish and reports whether one ran.
+func SpawnAsThread(on bool) {}
+func JoinThread() bool      { return false }
